@@ -16,6 +16,11 @@ ID = "C19"
 LEAN_MODULES = ["MpfVerif.Props.C19"]
 PROPS_FILE = "MpfVerif/Props/C19.lean"
 GEN = []
+MANIFEST = {
+  "text": "Proof on a byte-level Lean model of the BCP encoder, decoder and receiver: decode(encode cmd kw) = (cmd, kw) for every command and every list of distinct scalar parameters over arbitrary byte strings (incl. %XX, type-like prefixes, separators), ints, float texts, bools, None; the JSON branch hands the encoder's JSON text unchanged to the parser (abstract codec); the receiver's frames depend only on the byte sequence (any chunking) and every frame list is delivered completely and in order. The model is tied to bcp_socket_client.py by a correspondence run (encode, decode incl. a malformed stream, reader frames under random chunkings) on every check.",
+  "note": "Trusted: Lean kernel + {propext, Classical.choice, Quot.sound}; the hand-written model Model/Bcp.lean (validated only by differential runs); urllib.parse.quote/unquote/urlsplit, json, float repr and asyncio.StreamReader are modelled, not verified. Known finding: a scalar parameter named 'bytes' collides with the payload marker.",
+  "technique": "Lean 4 theorems (induction over byte lists / parameter lists) on a hand model + differential correspondence with the real encoder/decoder/reader",
+ }
 RULE = ("cases: (a) command + parameter dict over str/int/float/bool/None (+ nested list/dict for the JSON branch), strings "
         "biased to %XX, type-like prefixes, separators, newlines, non-BMP; (b) raw query strings from a 12-symbol alphabet "
         "(malformed stream) decoded by implementation and model; (c) streams of 1-5 messages with optional byte payloads "
@@ -346,7 +351,7 @@ def malformed_case(ctx, m, r, model):
 
 def run(ctx):
     m = impl_funcs()
-    model = None if getattr(ctx, "model_unavailable", False) else leanproc.LeanProc("bcp")
+    model = None if getattr(ctx, "model_unavailable", False) else leanproc.LeanProc(ID)
     try:
         # corpus first
         r = ctx.rng("corpus")
